@@ -23,12 +23,12 @@ CLAIMED['C16'] = dict(
 
 CLAIMED['C17'] = dict(
    category='proof',
-   text="FRAGMENT, proved: the variable byte integer encoder (to_variable_bytes) and its size function (variable_length), for all int32 values: exactly the canonical MQTT 1.5.5 encoding is appended (continuation bits, 7-bit groups, minimal length, boundaries 127/128, 16383/16384, 2097151/2097152), nothing is appended above 268435455, earlier bytes of the string are unchanged; byte_size agrees with the bytes written. NOT decided here: the per-packet expression-template encoders (encode_connect ... encode_auth, props_val), i.e. 'Remaining Length equals body size' and 'properties allowed per packet type'.",
+   text="FRAGMENT, proved: the variable byte integer encoder (to_variable_bytes) and its size function (variable_length), for all int32 values: exactly the canonical MQTT 1.5.5 encoding is appended (continuation bits, 7-bit groups, minimal length, boundaries 127/128, 16383/16384, 2097151/2097152), nothing is appended above 268435455, earlier bytes of the string are unchanged; byte_size agrees with the bytes written. The per-packet expression-template encoders (encode_connect ... encode_auth, props_val) are outside the emitter's reach (Boost.Endian / tuple expression templates); for them a BOUNDED NATIVE stand-in runs on every check (replay/encoders.cpp, 12.6k packets over a stated boundary domain: strings of 0/1/10/200 bytes, payloads of 0/1/127/128/16383/16384/70000 bytes, every property singly and all together, all flag combinations): each packet produced by the real encoder is read by an independent reference reader written from MQTT 5 (type and flags of Table 2-2, canonical Remaining Length equal to the bytes that follow, Property Length, only the properties Table 2-4 allows, no forbidden repetition, reserved bits zero, exact consumption) and must carry exactly the values given. It is testing over an enumerated domain, labelled bounded, never counted as proved.",
    note="Assumes the trusted base of DESIGN 7; mutable std::string modelled as a view with room behind it (allocation never fails). Loop bounded by operand width (unwind 5 with unwinding assertion = complete).",
    design='5 C17')
 CLAIMED['C18'] = dict(
    category='proof',
-   text="FRAGMENT, proved: functional contracts of the hand-written X3 parsers against references from MQTT 5: varint_parser::parse (accepts exactly 1-4 byte encodings, value, advance, failure restores first), len_prefix_parser::parse (succeeds iff 2+len bytes available; attribute = those bytes), scope_limit (subject sees exactly [iter, iter+limit), rejected if beyond last), verbatim_parser, and that an empty remaining range is 'no properties' for all 14 property-list parsers; decode_puback/pubrec/pubrel/pubcomp/disconnect/auth: Remaining Length 0 (reason code and properties omitted) yields the default value without parsing, any longer body is parsed exactly once over [it, it+RL) under scope_limit(RL) and its verdict returned. NOT decided: whole-packet equality through the Spirit X3 composition (assumed contracts on X3 built-ins), re-encoding.",
+   text="FRAGMENT, proved: functional contracts of the hand-written X3 parsers against references from MQTT 5: varint_parser::parse (accepts exactly 1-4 byte encodings, value, advance, failure restores first), len_prefix_parser::parse (succeeds iff 2+len bytes available; attribute = those bytes), scope_limit (subject sees exactly [iter, iter+limit), rejected if beyond last), verbatim_parser, and that an empty remaining range is 'no properties' for all 14 property-list parsers; decode_puback/pubrec/pubrel/pubcomp/disconnect/auth: Remaining Length 0 (reason code and properties omitted) yields the default value without parsing, any longer body is parsed exactly once over [it, it+RL) under scope_limit(RL) and its verdict returned. Whole-packet equality through the Spirit X3 composition is outside the emitter's reach; a BOUNDED NATIVE stand-in runs on every check (replay/encoders.cpp): every packet of the stated boundary domain produced by the real encoders (all 15 packet types) is decoded by the real decode_* and must be accepted, consume exactly its Remaining Length and yield the same fields and properties (testing over an enumerated domain, labelled bounded, never counted as proved); thorough adds the ASan search of replay/decoders.cpp.",
    note="Assumed contracts: x3::skip_over (no skipper installed), x3::big_word, generic X3 subject parser safety contract, properties<...>::apply_on invokes the functor at most once. 16/14/12 template instantiations emit byte-identical C and are verified once.",
    design='5 C18')
 CLAIMED['C19'] = dict(
